@@ -132,6 +132,8 @@ func allTypedBimaps(r *ev.Run) int {
 	n += typedBimap(r, spell.Complex, spell.Pointers)
 	n += typedBimap(r, spell.Int8, spell.Struct)
 	n += typedBimap(r, spell.AnyAlike, spell.StringAlike)
+	n += typedBimap(r, spell.Stringers, spell.Errors)
+	n += typedBimap(r, spell.Chans, spell.Stringers)
 	n += typedBimap(r, spell.FloatAlike, spell.AnyAlike)
 	return n
 }
